@@ -13,6 +13,7 @@ import (
 	"path/filepath"
 	"sort"
 	"strings"
+	"sync"
 	"time"
 
 	"github.com/gardenbed/charm/ui"
@@ -162,6 +163,9 @@ func (e Engine) Pool() []Op {
 	for _, o := range polarityOps() {
 		add(o)
 	}
+	for _, o := range featureOps() {
+		add(o)
+	}
 	// a schedule may run the cheaper "spec" stage of any specification operation: close the pool under that
 	for _, o := range append([]Op(nil), pool...) {
 		if o.Kind == "spec_lalr" || o.Kind == "spec_dfa" {
@@ -270,6 +274,23 @@ func polarityOps() []Op {
 	for i := range polarityPairs {
 		out = append(out, polarityPair(i)...)
 	}
+	return out
+}
+
+// featureOps is a list of operations that between them use every notation once: what is built
+// lazily for a notation is built by the first operation of a process that uses it.
+func featureOps() []Op {
+	var out []Op
+	for _, p := range []string{`a.b`, `\d+\w`, `[[:alpha:]]\s`, `\p{Greek}x`, `\P{Lu}`, `[^a-c]+`, `x{2,3}(y|z)*`, `\x41[\x30-\x39]`, `"[^"]*"`} {
+		out = append(out, Op{Kind: "nfa", Text: p}, Op{Kind: "regex_dfa", Text: p})
+	}
+	out = append(out,
+		Op{Kind: "spec_dfa", Text: "grammar f1;\nID = $ID;\nSTR = $STRING;\nNUM = $NUMBER;\nstart = ID \"=\" ( STR | NUM );\n"},
+		Op{Kind: "spec_dfa", Text: "grammar f2;\nANY = /./;\nWS = $WS;\nstart = ANY { \",\" ANY };\n"},
+		Op{Kind: "spec", Text: "grammar f3;\n@left \"+\" \"-\";\n@right <start \"^\" start>;\nstart = start \"+\" start | start \"-\" start | start \"^\" start | [ \"(\" ] {{ \"x\" }} ;\n"},
+		Op{Kind: "spec_lalr", Text: "grammar f4;\nNUM = /[0-9]+/;\n@left \"*\";\nstart = start \"*\" start | NUM;\n"},
+		Op{Kind: "ast", Text: "grammar f5;\nID = /[a-z]+/;\nstart = ID [ \",\" ID ] { \";\" } ( \"a\" | \"b\" );\n"},
+		Op{Kind: "generate", Text: "grammar n1;\nNUM = /[0-9]+/;\nstart = NUM;\n"})
 	return out
 }
 
@@ -536,15 +557,35 @@ func (e Engine) BuildIsoTable(path string) error {
 		return err
 	}
 	table := map[string]string{}
-	for i, o := range e.Pool() {
-		b, _ := json.Marshal(o)
-		cmd := exec.Command(exe, "-iso-op", string(b))
-		cmd.Env = append(os.Environ(), "GORACE=log_path="+path+".isorace exitcode=0")
-		out, err := cmd.Output()
-		if err != nil {
-			return fmt.Errorf("isolated run of pool op %d failed: %v", i, err)
+	pool := e.Pool()
+	outs := make([]string, len(pool))
+	errs := make([]error, len(pool))
+	// one fresh process per operation, sixteen at a time (each process is isolated from the others)
+	sem := make(chan struct{}, 16)
+	var wg sync.WaitGroup
+	for i, o := range pool {
+		wg.Add(1)
+		sem <- struct{}{}
+		go func(i int, o Op) {
+			defer wg.Done()
+			defer func() { <-sem }()
+			b, _ := json.Marshal(o)
+			cmd := exec.Command(exe, "-iso-op", string(b))
+			cmd.Env = append(os.Environ(), "GORACE=log_path="+path+".isorace exitcode=0")
+			out, err := cmd.Output()
+			if err != nil {
+				errs[i] = fmt.Errorf("isolated run of pool op %d failed: %v", i, err)
+				return
+			}
+			outs[i] = string(out)
+		}(i, o)
+	}
+	wg.Wait()
+	for i, o := range pool {
+		if errs[i] != nil {
+			return errs[i]
 		}
-		table[o.key()] = string(out)
+		table[o.key()] = outs[i]
 	}
 	b, _ := json.Marshal(table)
 	return os.WriteFile(path, b, 0o644)
@@ -576,6 +617,7 @@ const (
 	kSchedule
 	kSelfTest
 	kPairs // few workers on a short list of representative operations of one family, finely interleaved
+	kFresh // two or three workers doing the SAME thing, as early in the life of a worker process as possible
 )
 
 func (e Engine) Plan(tier string, seed uint64) []simrt.Case {
@@ -585,6 +627,18 @@ func (e Engine) Plan(tier string, seed uint64) []simrt.Case {
 	}
 	var cs []simrt.Case
 	cs = append(cs, simrt.Case{Index: 0, Seed: 1, Args: []int{kSelfTest}, Label: "monitor self-test"})
+	// Lazily initialised shared state is written by whoever comes first in the process and read by
+	// everybody after: the unordered pair of accesses exists only between two workers of the SAME
+	// schedule that both need it for the first time. These cases come first in the plan, so that
+	// (cases being dealt out round-robin) they are the first things a worker process does, and
+	// they walk through a list of operations with different features, both workers doing the same.
+	nFresh := 2 * len(featureOps())
+	if tier == "thorough" {
+		nFresh = 8 * len(featureOps())
+	}
+	for i := 0; i < nFresh; i++ {
+		cs = append(cs, simrt.Case{Index: len(cs), Seed: simrt.Mix(seed, 17, 4, uint64(i)), Args: []int{kFresh, i}, Label: "fresh"})
+	}
 	for i := 0; i < nH; i++ {
 		cs = append(cs, simrt.Case{Index: len(cs), Seed: simrt.Mix(seed, 17, 0, uint64(i)), Args: []int{kHistory}})
 	}
@@ -880,10 +934,16 @@ func (e Engine) Run(t *simrt.Tape, c simrt.Case, x *simrt.Ctx) *simrt.Result {
 		}
 		res.Key("history", strings.Join(names, ","))
 
-	case kSchedule, kPairs:
+	case kSchedule, kPairs, kFresh:
 		nw := 2 + t.Draw(3)
 		if c.Args[0] == kPairs {
 			nw = 2 + t.Draw(2)
+		}
+		var freshOp *Op
+		if c.Args[0] == kFresh {
+			nw = 2 + t.Draw(2)
+			fo := featureOps()
+			freshOp = &fo[c.Args[1]%len(fo)]
 		}
 		lists := make([][]Op, nw)
 		results := make([][]string, nw)
@@ -896,6 +956,9 @@ func (e Engine) Run(t *simrt.Tape, c simrt.Case, x *simrt.Ctx) *simrt.Result {
 				if o.Kind == "spec_lalr" && t.Chance(1, 2) {
 					o.Kind = "spec" // keep most schedules short
 				}
+				if freshOp != nil {
+					o = *freshOp
+				}
 				o = e.withDir(o)
 				defer cleanDir(o)
 				lists[w] = append(lists[w], o)
@@ -905,6 +968,12 @@ func (e Engine) Run(t *simrt.Tape, c simrt.Case, x *simrt.Ctx) *simrt.Result {
 			raws[w] = make([]*Raw, len(lists[w]))
 		}
 		policy := t.Draw(4)
+		if c.Args[0] == kFresh {
+			policy = []int{4, 3, 0}[t.Draw(3)]
+			if k := freshOp.Kind; k == "generate" || k == "spec_lalr" || k == "spec_dfa" {
+				policy = []int{3, 1}[t.Draw(2)] // long operations: pre-empt where shared state is touched, not at every yield
+			}
+		}
 		if c.Args[0] == kPairs {
 			policy = []int{4, 4, 3, 0}[t.Draw(4)] // mostly strict alternation at every yield point
 		}
